@@ -298,6 +298,16 @@ func (vc *VC) runTop() {
 			env := &SpecEnv{vc: vc, fn: fn, binds: vc.topBinds(), cur: vc.entry, old: vc.entry}
 			vc.assume(env.boolExpr(rq.Expr))
 		}
+		for _, u := range con.Uses {
+			ax := vc.eng.cs.Axioms[u]
+			if ax == nil {
+				vc.eng.errorf("%s: unknown axiom %q", vc.fnName(), u)
+				continue
+			}
+			env := &SpecEnv{vc: vc, fn: nil, pkgPath: ax.PkgPath, binds: map[string]Val{}, cur: vc.entry, old: vc.entry}
+			vc.assume(env.boolExpr(ax.Expr))
+			vc.note("axiom " + ax.Name + " (" + ax.Pos + "): " + ax.Text)
+		}
 		// owned parameters: treated as protected objects (fields survive calls)
 		for _, o := range con.Owned {
 			if v, ok := vc.params[o]; ok {
